@@ -1062,6 +1062,9 @@ size_t ZSTDMT_sizeof_CCtx(ZSTDMT_CCtx* mtctx)
  * @return : error code if fails, 0 on success */
 static size_t ZSTDMT_resize(ZSTDMT_CCtx* mtctx, unsigned nbWorkers)
 {
+    /* Forget the current worker count until the resize is complete :
+     * if it fails midway, the next session must resize again, whatever count it requests. */
+    ZSTDMT_CCtxParam_setNbWorkers(&mtctx->params, 0);
     if (POOL_resize(mtctx->factory, nbWorkers)) return ERROR(memory_allocation);
     FORWARD_IF_ERROR( ZSTDMT_expandJobsTable(mtctx, nbWorkers) , "");
     /* note : a pool is NULL here when a previous resize failed after releasing it */
